@@ -13,6 +13,7 @@ import vlib
 from props import statelib
 from props import topiclib as T
 from props import c01burst
+from props import c01ims
 from props.statelib import kvs
 
 
@@ -505,6 +506,16 @@ def run(ctx):
         c01burst.run_flight(ctx, monitor)
         if rp is not None:
             ctx.coverage.setdefault("trusted_base", []).append("harness/overlay/server/zz_verif_c01b_test.go: burst / unload-race driver")
+            ctx.finish()
+    if ok_r and ok_m and ctx.proof_ok() and (rp is None or rp.get("part") == "ims"):
+        c01ims.run_ims(ctx, monitor)
+        if rp is not None:
+            ctx.coverage.setdefault("trusted_base", []).append("harness/overlay/server/zz_verif_c01i_test.go: description-options driver")
+            ctx.finish()
+    if ok_r and ok_m and ctx.proof_ok() and (rp is None or rp.get("part") == "chan"):
+        c01ims.run_channel(ctx)
+        if rp is not None:
+            ctx.coverage.setdefault("trusted_base", []).append("harness/overlay/server/zz_verif_c02_test.go: fan-out driver of the C02 check (channel-enabled topics)")
             ctx.finish()
     ctx.violations = [v for v in ctx.violations if v["key"] != "proof-broken"]   # re-raised by run_stateful
     ctx.coq_props = lambda extra_files=(): proof
